@@ -1288,10 +1288,17 @@ def shelve(ctx):
     ctx.check(bool(c) and len(c[0].args) >= 2 and dotted(c[0].args[0]) == "self.store_backend" and dotted(c[0].args[1]) == "call_id", c[0] if c else gm, "the reference is built on the same store and call id")
     cs = M(ctx, "MemorizedFunc.call_and_shelve")
     r = nodes_of_type(cs, ast.Return)
-    ctx.check(bool(r) and unparse(r[0].value) == "self._cached_call(args, kwargs, shelving=True)[0]", r[0] if r else cs, "call_and_shelve goes through _cached_call(shelving=True)")
+    def through(fn_, want):
+        g_ = cfg_of(fn_)
+        cc_ = [c for c in calls_in(fn_) if call_name(c) == "self._cached_call" and len(c.args) >= 2 and [dotted(a) for a in c.args[:2]] == ["args", "kwargs"] and is_const(kwarg(c, "shelving", 2), want)]
+        others = [c for c in calls_in(fn_) if call_name(c) in ("self._cached_call", "self._call", "self.func", "self.call") and c not in cc_]
+        return bool(cc_) and not others and g_.every_path_from([g_.entry], g_.nodes_of_all(cc_), None, skip_exc=True), (cc_ or [fn_])[0]
+    ok_, at_ = through(cs, True)
+    ctx.check(ok_, at_, "call_and_shelve goes through _cached_call(shelving=True)")
     cl = M(ctx, "MemorizedFunc.__call__")
     r = nodes_of_type(cl, ast.Return)
-    ctx.check(bool(r) and unparse(r[0].value) == "self._cached_call(args, kwargs, shelving=False)[0]", r[0] if r else cl, "__call__ goes through _cached_call(shelving=False)")
+    ok_, at_ = through(cl, False)
+    ctx.check(ok_, at_, "__call__ goes through _cached_call(shelving=False)")
 
 
 def hit_sibling(ctx):
